@@ -53,16 +53,18 @@ type raceDesc struct {
 	PerG       int    `json:"per_g"`
 	Sink       bool   `json:"sink"`
 	Focus      string `json:"focus"` // what every goroutine calls first (cold-start contention target)
+	Micro      bool   `json:"micro"` // only the focus requests, a few rounds: many cheap cold starts
 }
 
 var raceFocuses = []string{"rs-climb", "aztec-10bit", "aztec-12bit", "pdf417", "aztec-small", "datamatrix-big", "qr-big", "onedim", "rs-climb", "aztec-8bit"}
+var microFocuses = []string{"code128", "code39-93-long", "ean-2of5-codabar", "onedim", "pdf417", "aztec-small", "code128", "code39-93-long"}
 
 // focusReqs: the first calls of every goroutine; all of them hit the same family and
 // size class at the same time while everything in the process is still cold.
 func focusReqs(focus string, gr *rand.Rand) []Req {
 	switch focus {
 	case "aztec-10bit":
-		return []Req{{Fam: "aztec", S: randBytes(gr, 250+gr.Intn(500), highAB), I: []int64{33, 0}, Scheme: -1}, {Fam: "aztec", S: randBytes(gr, 200, printAB), I: []int64{23, 12}, Scheme: -1}}
+		return []Req{{Fam: "aztec", S: randBytes(gr, 400+gr.Intn(400), highAB), I: []int64{23, 0}, Scheme: -1}, {Fam: "aztec", S: randBytes(gr, 500+gr.Intn(300), printAB), I: []int64{33, 0}, Scheme: -1},{Fam: "aztec", S: randBytes(gr, 250+gr.Intn(500), highAB), I: []int64{33, 0}, Scheme: -1}, {Fam: "aztec", S: randBytes(gr, 200, printAB), I: []int64{23, 12}, Scheme: -1}}
 	case "aztec-12bit":
 		return []Req{{Fam: "aztec", S: randBytes(gr, 1100+gr.Intn(300), highAB), I: []int64{33, 0}, Scheme: -1}, {Fam: "aztec", S: []byte("A"), I: []int64{23, int64(23 + gr.Intn(10))}, Scheme: -1}}
 	case "aztec-8bit":
@@ -75,6 +77,34 @@ func focusReqs(focus string, gr *rand.Rand) []Req {
 		return []Req{{Fam: "datamatrix", S: randBytes(gr, 900+gr.Intn(500), upperAB), Scheme: -1}, {Fam: "datamatrix", S: randBytes(gr, 300, highAB), Scheme: -1}}
 	case "qr-big":
 		return []Req{{Fam: "qr", S: randBytes(gr, 800+gr.Intn(900), printAB), I: []int64{int64(gr.Intn(4)), 0}, Scheme: -1}, {Fam: "qr", S: randBytes(gr, 900, digitsAB), I: []int64{3, 1}, Scheme: -1}}
+	case "aztec-big-stream":
+		var l []Req
+		for i := 0; i < 3; i++ {
+			l = append(l, Req{Fam: "aztec", S: randBytes(gr, 900+gr.Intn(550), highAB), I: []int64{int64(gr.Intn(40)), 0}, Scheme: -1})
+		}
+		return l
+	case "code128":
+		var l []Req
+		// digits-only first (touches no A/B tables), then everything else
+		l = append(l, Req{Fam: "code128", S: randBytes(gr, 10, digitsAB), Scheme: -1})
+		for i := 0; i < 5; i++ {
+			l = append(l, randomValidReq(gr, pick(gr, []string{"code128", "code128nocs"}), -1))
+		}
+		return l
+	case "code39-93-long":
+		var l []Req
+		for i := 0; i < 4; i++ {
+			fam := pick(gr, []string{"code39", "code93"})
+			l = append(l, Req{Fam: fam, S: randBytes(gr, 66+gr.Intn(150), []byte(refC39)), I: []int64{1, 0}, Scheme: -1},
+				Req{Fam: fam, S: randBytes(gr, 40+gr.Intn(60), asciiAB), I: []int64{1, 1}, Scheme: -1})
+		}
+		return l
+	case "ean-2of5-codabar":
+		var l []Req
+		for i := 0; i < 4; i++ {
+			l = append(l, Req{Fam: "ean", S: randBytes(gr, pick(gr, []int{7, 12}), digitsAB), Scheme: -1}, randomValidReq(gr, "2of5", -1), randomValidReq(gr, "codabar", -1))
+		}
+		return l
 	case "onedim":
 		return []Req{randomValidReq(gr, "code128", -1), randomValidReq(gr, "code39", -1), randomValidReq(gr, "code93", -1), randomValidReq(gr, "ean", -1), randomValidReq(gr, "codabar", -1), randomValidReq(gr, "2of5", -1)}
 	}
@@ -120,6 +150,12 @@ func raceRequests(d *raceDesc) [][]Req {
 		gr := rand.New(rand.NewSource(d.Seed*1000003 + int64(g)))
 		var l []Req
 		l = append(l, focusReqs(d.Focus, gr)...)
+		if d.Micro {
+			l = append(l, focusReqs(d.Focus, gr)...)
+			l = append(l, focusReqs(d.Focus, gr)...)
+			lists[g] = l
+			continue
+		}
 		// climb through the RS degrees, in an order private to this goroutine
 		climb := append(append([]Req{}, qrDeg...), dmDeg...)
 		switch g % 3 {
@@ -175,9 +211,62 @@ func auxRaceWork(args []string) int {
 	lists := raceRequests(&d)
 	out := &raceOut{ID: d.ID, Digests: map[string]string{}}
 
-	// shared objects created before the barrier without touching any shared library state
-	src1D, _ := Req{Fam: "code128", S: []byte("shared-source"), Scheme: -1}.do()
-	srcEAN, _ := Req{Fam: "ean", S: []byte("5512345"), Scheme: 7}.do()
+	// shared objects created before the barrier.  They must not warm up what the
+	// descriptor's focus wants to hit cold, so their families depend on the focus.
+	excluded := map[string]bool{}
+	switch d.Focus {
+	case "code128":
+		excluded["code128"] = true
+	case "ean-2of5-codabar":
+		excluded["ean"], excluded["2of5"], excluded["codabar"] = true, true, true
+	case "code39-93-long":
+		excluded["code39"], excluded["code93"] = true, true
+	case "onedim":
+		for _, f := range []string{"code128", "ean", "2of5", "codabar", "code39", "code93"} {
+			excluded[f] = true
+		}
+	}
+	var src1D, srcEAN barcode.Barcode
+	for _, cand := range []Req{{Fam: "code128", S: []byte("shared-source"), Scheme: -1}, {Fam: "codabar", S: []byte("A1234B"), Scheme: -1}, {Fam: "code39", S: []byte("SHARED"), I: []int64{1, 0}, Scheme: -1}} {
+		if !excluded[cand.Fam] && src1D == nil {
+			src1D, _ = cand.do()
+		}
+	}
+	for _, cand := range []Req{{Fam: "ean", S: []byte("5512345"), Scheme: 7}, {Fam: "2of5", S: []byte("1234"), I: []int64{1}, Scheme: 7}, {Fam: "code93", S: []byte("SHARED"), I: []int64{1, 0}, Scheme: 7}} {
+		if !excluded[cand.Fam] && srcEAN == nil {
+			srcEAN, _ = cand.do()
+		}
+	}
+	// a shared *scaled* 2D barcode (PDF417 touches no shared library state) whose pixels
+	// are read by all goroutines at once
+	srcReq := Req{Fam: "pdf417", S: []byte("shared scaled 2D source"), I: []int64{2}, Scheme: -1}
+	if d.Focus == "pdf417" {
+		srcReq = Req{Fam: "codabar", S: []byte("A987654321B"), Scheme: -1} // 1D stands in
+	}
+	srcPDF, _ := srcReq.do()
+	var scaled2D barcode.Barcode
+	var scaledWant []color.Color
+	if srcPDF != nil && srcPDF.Metadata().Dimensions == 1 {
+		srcPDF = nil
+	}
+	if srcPDF != nil {
+		pb := srcPDF.Bounds()
+		scaled2D, _ = barcode.Scale(srcPDF, 2*pb.Dx()+3, 2*pb.Dy()+1)
+		if scaled2D != nil {
+			sb := scaled2D.Bounds()
+			scaledWant = make([]color.Color, sb.Dx()*sb.Dy())
+			for y := 0; y < sb.Dy(); y++ {
+				for x := 0; x < sb.Dx(); x++ {
+					ox, oy := (sb.Dx()-2*pb.Dx())/2, (sb.Dy()-2*pb.Dy())/2
+					var want color.Color = color.White
+					if x >= ox && x < ox+2*pb.Dx() && y >= oy && y < oy+2*pb.Dy() {
+						want = srcPDF.At((x-ox)/2, (y-oy)/2)
+					}
+					scaledWant[y*sb.Dx()+x] = want
+				}
+			}
+		}
+	}
 	var shared []rsShared
 	for _, fs := range c17Fields {
 		gf := utils.NewGaloisField(fs.pp, fs.size, fs.base)
@@ -237,6 +326,9 @@ func auxRaceWork(args []string) int {
 				if i%5 == 2 {
 					// Scale on shared sources with concurrent pixel reads
 					for _, s := range []barcode.Barcode{src1D, srcEAN} {
+						if s == nil {
+							continue
+						}
 						w := s.Bounds().Dx()*(1+gr.Intn(3)) + gr.Intn(7)
 						sc, err := barcode.Scale(s, w, 3)
 						if err != nil || sc == nil {
@@ -249,6 +341,18 @@ func auxRaceWork(args []string) int {
 						}
 						if msg, _ := scaleModel(s, sc, nil, w, 3, fill); msg != "" {
 							probs[g] = append(probs[g], "Scale under concurrency: "+msg)
+						}
+					}
+				}
+				if i%3 == 1 && scaled2D != nil {
+					sb := scaled2D.Bounds()
+					y0 := gr.Intn(sb.Dy())
+					for y := y0; y < sb.Dy() && y < y0+6; y++ {
+						for x := 0; x < sb.Dx(); x++ {
+							if got := scaled2D.At(x, y); got != scaledWant[y*sb.Dx()+x] {
+								probs[g] = append(probs[g], fmt.Sprintf("shared scaled barcode: pixel (%d,%d) read concurrently = %v, want %v", x, y, got, scaledWant[y*sb.Dx()+x]))
+								x, y = sb.Dx(), sb.Dy()
+							}
 						}
 					}
 				}
@@ -423,6 +527,22 @@ func (p c16) Run(par *fw.Parent) *fw.Result {
 		}
 		d.Focus = raceFocuses[(i/3)%len(raceFocuses)]
 		descs = append(descs, d)
+	}
+	// many cheap cold starts for the 1D and small-symbol packages
+	nmicro := 48
+	if par.Tier == "thorough" {
+		nmicro = 400
+	}
+	for i := 0; i < nmicro; i++ {
+		descs = append(descs, raceDesc{ID: fmt.Sprintf("micro-%d", i), Seed: r.Int63(), Procs: []int{2, 4, 8, 16}[i%4], Goroutines: []int{4, 8, 16}[(i/4)%3], Micro: true, Focus: microFocuses[i%len(microFocuses)]})
+	}
+	// free-running streams of large Aztec symbols (calls drift out of phase)
+	nbig := 2
+	if par.Tier == "thorough" {
+		nbig = 12
+	}
+	for i := 0; i < nbig; i++ {
+		descs = append(descs, raceDesc{ID: fmt.Sprintf("bigstream-%d", i), Seed: r.Int63(), Procs: []int{8, 16}[i%2], Goroutines: 8, Micro: true, Focus: "aztec-big-stream"})
 	}
 	// non-deciding contention pass with the sink on (plain binary is enough)
 	nsink := 4
